@@ -7,7 +7,9 @@ sites.json (optional): { "<ID>": "comma separated source files the change should
 import json, os, subprocess, sys, glob
 
 root, rnd = sys.argv[1], int(sys.argv[2])
-sites = json.load(open(sys.argv[3])) if len(sys.argv) > 3 else {}
+sites = json.load(open(sys.argv[3])) if len(sys.argv) > 3 and sys.argv[3] != '-' else {}
+# optional 4th argument: a file whose text is inserted as an extra paragraph (e.g. "assume a strong random-testing harness")
+extra_txt = open(sys.argv[4]).read().strip() + "\n\n" if len(sys.argv) > 4 else ""
 here = os.path.dirname(os.path.abspath(__file__))
 props = {json.loads(l)['id']: json.loads(l) for l in open(os.path.join(here, '..', 'properties.jsonl'))}
 os.makedirs(os.path.join(root, 'prompts'), exist_ok=True)
@@ -37,7 +39,7 @@ The property you must break:
 Previous developers already tried the following changes, so do something DIFFERENT - a different mechanism, a different site in the code, and if the property has several clauses preferably a different clause:
 {prev_txt}
 
-{site_txt}Task: make ONE small, realistic change to the library source (files under {wt}/src, not the tests) that makes this property false, while
+{site_txt}{extra_txt}Task: make ONE small, realistic change to the library source (files under {wt}/src, not the tests) that makes this property false, while
   (a) the crate still compiles (`cargo build --offline`) and
   (b) the existing test suite still passes: run `cargo test --offline --lib` (unit tests) and, inside a private network namespace because the tests bind fixed UDP ports that other jobs on this machine also use, `unshare -rn sh -c 'ip link set lo up; cargo test --offline --no-fail-fast --test disconnect --test timeouts -- --test-threads=1'`. Note: on the UNCHANGED tree `timeouts::server_active_timeout` is flaky (fails more often than not) and `ideal_transfer`, `reliable_transfer`, `timeouts::client_handshake_timeout`, `disconnect::server_disconnect_now` are flaky or failing - ignore those; every other test must still pass with your change.
 The change should look like a plausible refactoring slip, off-by-one, wrong variable, dropped or reordered statement, NOT something ordinary use would expose at once: it should need something specific to manifest - a particular interleaving of calls, a fault (loss / duplication / reordering / delay) at a particular point, a multi-step sequence of operations, an unusual input or configuration value, a sequence-number wrap-around, or two cooperating sites that each look fine alone. Prefer changes deep in the protocol logic over changes at input validation. Do not touch code guarded by `#[cfg(feature = "uflow_verif")]`, but you MAY use that feature in your demonstration (it provides a virtual clock `uflow::verif::time`, a seeded RNG, an in-process UDP socket `uflow::verif::net` and re-exports of internal types such as HalfConnection, Frame and SendRateComp; see src/verif.rs).
